@@ -1535,6 +1535,175 @@ Section RT.
         repeat (rewrite blen_app || rewrite blen_cons). rewrite blen_nil. f_equal. apply stepS_eq; lia.
   Qed.
 
+  (** finishing a one-line definition: the ';' (already peeked, or after a space) and the line end *)
+  Lemma finish_semi_look : forall tk rest P line K ll, t_typ tk = 59 -> (1 <= F)%nat ->
+    exists st', p_token il id F c_semi (PS (stepS 10 rest P line K ll 10 ws_default) (Some tk)) = POk tt st'
+                /\ Ready (line + 1) (P + 1) rest st'.
+  Proof.
+    intros tk rest P line K ll Ht HF. rewrite (p_token_look _ tk c_semi Ht). eexists. split; [reflexivity|].
+    unfold stepS. change (10 =? 10) with true. cbv iota. apply ready_A. exact HF.
+  Qed.
+
+  Lemma finish_semi_ws : forall rest last P line K ll, (1 <= F)%nat -> 0 <= K ->
+    exists st', p_token il id F c_semi (PS (mkS (59 :: 10 :: rest) last P line K ll 32 ws_default) None) = POk tt st'
+                /\ Ready (line + 1) (P + 1 + 1) rest st'.
+  Proof.
+    intros rest last P line K ll HF HK. rewrite semi_tail by assumption. eexists. split; [reflexivity|]. apply ready_A. exact HF.
+  Qed.
+
+  (** optionalObjectType on one of BU_ BO_ SG_ EV_ *)
+  Lemma opt_obj_kw : forall kw ot c r last pos l k ll,
+    ident_valid kw = true -> object_type_of kw = Some ot -> ascii c -> idc c = false -> (length kw + 2 < F)%nat -> 0 <= k ->
+    optional_object_type il id F (PS (mkS (kw ++ c :: r) last pos l k ll 32 ws_default) None)
+    = POk ot (PS (stepS c r (pos + blen kw) l (k + blen kw) ll c ws_default) None).
+  Proof.
+    intros kw ot c r last pos l k ll Hv Hot Hc Hnc HF Hk. destruct (ident_valid_shape kw Hv) as (c0 & t & -> & H0 & Ht).
+    unfold optional_object_type, bind. rewrite peek_token_scan.
+    rewrite (scan_ws_ident 32); try assumption; [|exact ws32|exact ws_def|cbn [length] in HF; lia].
+    cbn [t_typ]. change (TIdent =? TIdent) with true. cbn [negb].
+    rewrite p_identifier_look; [|reflexivity|exact Hv]. cbn [t_txt]. rewrite Hot. unfold ret.
+    f_equal. f_equal. apply stepS_eq; rewrite blen_cons; lia.
+  Qed.
+
+  (** a quoted string is next: its quote can be peeked *)
+  Lemma quote_peek : forall s c2 r last pos l k ll, Forall plain_char s -> ascii c2 -> (1 <= F)%nat -> 0 <= k ->
+    exists tk st1, peek_token (PS (mkS (34 :: s ++ 34 :: c2 :: r) last pos l k ll 32 ws_default) None) = POk tk st1
+                   /\ t_typ tk = 34.
+  Proof.
+    intros s c2 r last pos l k ll Hs Hc2 HF Hk. destruct (snoc_cons s 34) as (a & q & Eq).
+    assert (Haa : ascii a).
+    { destruct s as [|s0 s1]; cbn in Eq; injection Eq as <- _.
+      - unfold ascii. lia.
+      - inversion Hs as [|? ? H0 _]; subst. destruct (plain_ascii _ H0) as (? & _). auto. }
+    replace (34 :: s ++ 34 :: c2 :: r) with (34 :: a :: q ++ c2 :: r)
+      by (change (s ++ 34 :: c2 :: r) with (s ++ [34] ++ c2 :: r); rewrite app_assoc, Eq; reflexivity).
+    rewrite peek_token_scan. rewrite (scan_ws_punct 32) by side. eexists; eexists; split; reflexivity.
+  Qed.
+
+  Lemma opt_obj_none : forall st tk st1, peek_token st = POk tk st1 -> t_typ tk = 34 ->
+    optional_object_type il id F st = POk OtUnspecified st1.
+  Proof. intros st tk st1 H Ht. unfold optional_object_type, bind. rewrite H, Ht. reflexivity. Qed.
+
+  Lemma msgid_after_peek : forall st t st1, peek_token st = POk t st1 -> p_message_id il id F st1 = p_message_id il id F st.
+  Proof. intros st t st1 H. exact (bind_peek_after_peek _ _ _ H _ _). Qed.
+
+  (** BO_TX_BU_ items *)
+  Definition tx_text (txs : list (bytes * bool)) : bytes := concat (map print_tx txs).
+
+  Lemma tx_text_head : forall txs X, exists T, tx_text txs ++ 32 :: X = 32 :: T.
+  Proof. intros txs X. destruct txs as [|x txs]; cbn; eexists; reflexivity. Qed.
+
+  Lemma tx_peek : forall txs TAIL c2 r last P l K ll,
+    32 :: TAIL = tx_text txs ++ 32 :: 59 :: c2 :: r -> Forall (fun x => ident_valid (fst x) = true) txs -> ascii c2 ->
+    (length (tx_text txs) + 4 < F)%nat -> 0 <= K ->
+    exists t st1, peek_token (PS (mkS TAIL last P l K ll 32 ws_default) None) = POk t st1 /\ (t_typ t = TIdent \/ t_typ t = 59).
+  Proof.
+    intros txs TAIL c2 r last P l K ll HT Hw Hc2 HF HK. destruct txs as [|[n comma] txs].
+    - cbn in HT. injection HT as ->. destruct (peek_ws_punct 32 59 c2 r last P l K ll ws_default) as (tk & Ep & Ety); try side.
+      eexists; eexists; split; [exact Ep|right; exact Ety].
+    - apply Forall_cons_iff in Hw. destruct Hw as (Hn & _). cbn [fst] in Hn.
+      destruct (ident_valid_shape n Hn) as (c0 & t & -> & H0 & Ht).
+      cbn [tx_text map concat print_tx fst snd app] in HT. injection HT as ->.
+      assert (HFn : (length t + 2 < F)%nat).
+      { unfold tx_text, print_tx in HF. cbn [map concat fst snd] in HF. repeat (rewrite app_length in HF || cbn [length] in HF). lia. }
+      rewrite peek_token_scan. rewrite <- !app_assoc.
+      assert (E : exists q, (if comma then [32; 44] else []) ++ concat (map print_tx txs) ++ 32 :: 59 :: c2 :: r = 32 :: q).
+      { destruct comma; cbn [app]; [eexists; reflexivity|]. fold (tx_text txs). apply tx_text_head. }
+      destruct E as (q & Eq). rewrite Eq. change (c0 :: t ++ 32 :: q) with ((c0 :: t) ++ 32 :: q).
+      rewrite (scan_ws_ident 32); try assumption; try side. eexists; eexists; split; [reflexivity|left; reflexivity].
+  Qed.
+
+  Lemma transmitters_run : forall txs f racc TAIL c2 r last P l K ll,
+    32 :: TAIL = tx_text txs ++ 32 :: 59 :: c2 :: r -> Forall (fun x => ident_valid (fst x) = true) txs -> ascii c2 ->
+    (length txs < f)%nat -> (length (tx_text txs) + 4 < F)%nat -> 0 <= K ->
+    exists tk, transmitters_loop il id F f racc (PS (mkS TAIL last P l K ll 32 ws_default) None)
+               = POk (rev racc ++ map fst txs)
+                     (PS (stepS c2 r (P + blen (tx_text txs) + 1) l (K + blen (tx_text txs) + 1) ll c2 ws_default) (Some tk))
+               /\ t_typ tk = 59.
+  Proof.
+    induction txs as [|[n comma] txs IH]; intros f racc TAIL c2 r last P l K ll HT Hw Hc2 Hf HF HK.
+    - cbn [tx_text map concat app] in HT. injection HT as ->. destruct f as [|f]; [lia|].
+      cbn [transmitters_loop]. unfold bind at 1.
+      destruct (peek_ws_punct 32 59 c2 r last P l K ll ws_default) as (tk & Ep & Ety); try side.
+      rewrite Ep, Ety. change (59 =? c_semi) with true. cbn [negb]. unfold ret. cbn [tx_text map concat].
+      rewrite app_nil_r, blen_nil, !Z.add_0_r. exists tk. split; [reflexivity|exact Ety].
+    - apply Forall_cons_iff in Hw. destruct Hw as (Hn & Hw'). cbn [fst] in Hn. destruct f as [|f]; [cbn in Hf; lia|].
+      cbn [tx_text map concat print_tx fst snd app] in HT. fold (tx_text txs) in HT. injection HT as ->.
+      destruct (tx_text_head txs (59 :: c2 :: r)) as (T' & ET').
+      assert (HFn : (length n + length (tx_text txs) + 4 < F)%nat).
+      { unfold tx_text, print_tx in HF. cbn [map concat fst snd] in HF. fold print_tx in HF. fold (tx_text txs) in HF.
+        repeat (rewrite app_length in HF || cbn [length] in HF). lia. }
+      pose proof (blen_nonneg n) as Hnn.
+      cbn [transmitters_loop]. unfold bind at 1. rewrite <- !app_assoc.
+      assert (E : exists q, (if comma then [32; 44] else []) ++ tx_text txs ++ 32 :: 59 :: c2 :: r = 32 :: q
+                            /\ (comma = true -> q = 44 :: 32 :: T') /\ (comma = false -> q = T')).
+      { destruct comma; cbn [app].
+        - eexists. split; [reflexivity|]. split; [intros _; rewrite ET'; reflexivity|discriminate].
+        - rewrite ET'. eexists. split; [reflexivity|]. split; [discriminate|reflexivity]. }
+      destruct E as (q & Eq & Eqc & Eqn). rewrite Eq.
+      destruct (ident_valid_shape n Hn) as (c0 & t & En & H0 & Ht). rewrite En.
+      rewrite peek_token_scan. rewrite (scan_ws_ident 32); try assumption; try side; [|rewrite En in HFn; cbn [length] in HFn; lia].
+      cbn [t_typ]. change (TIdent =? c_semi) with false. cbn [negb]. unfold bind at 1.
+      rewrite p_identifier_look; [|reflexivity|cbn [t_txt]; rewrite <- En; exact Hn]. cbn [t_txt]. rewrite <- En.
+      rewrite stepS_plain by discriminate. unfold bind at 1.
+      destruct comma.
+      + rewrite (Eqc eq_refl). unfold optional_token. unfold bind at 1.
+        destruct (peek_ws_punct 32 44 32 T' [32] (P + 1 + blen t + 1) l (K + 1 + blen t + 1) ll ws_default) as (tk1 & Ep & Ety); try side.
+        { pose proof (blen_nonneg t). lia. }
+        rewrite Ep, Ety. change (44 =? c_comma) with true. cbv beta iota. rewrite (p_token_look _ tk1 c_comma Ety).
+        rewrite stepS_plain by discriminate.
+        destruct (IH f (n :: racc) T' c2 r [32] (P + 1 + blen t + 1 + 1 + 1) l (K + 1 + blen t + 1 + 1 + 1) ll (eq_sym ET') Hw' Hc2
+                    ltac:(cbn in Hf; lia) ltac:(lia) ltac:(pose proof (blen_nonneg t); lia)) as (tk & E & Ety2).
+        exists tk. split; [|exact Ety2]. rewrite E. cbn [rev map fst]. rewrite <- app_assoc. cbn [app]. f_equal. f_equal.
+        cbn [tx_text map concat print_tx fst snd]. fold (tx_text txs). rewrite En.
+        repeat (rewrite blen_app || rewrite blen_cons). rewrite ?blen_nil. apply stepS_eq; lia.
+      + rewrite (Eqn eq_refl). unfold optional_token. unfold bind at 1.
+        destruct (tx_peek txs T' c2 r [32] (P + 1 + blen t + 1) l (K + 1 + blen t + 1) ll (eq_sym ET') Hw' Hc2 ltac:(lia)
+                    ltac:(pose proof (blen_nonneg t); lia)) as (t1 & st1 & Ep & Hty).
+        rewrite Ep. assert (Enc : (t_typ t1 =? c_comma) = false) by (destruct Hty as [-> | ->]; reflexivity). rewrite Enc.
+        unfold ret at 1. rewrite (tx_loop_after_peek _ _ _ _ _ Ep).
+        destruct (IH f (n :: racc) T' c2 r [32] (P + 1 + blen t + 1) l (K + 1 + blen t + 1) ll (eq_sym ET') Hw' Hc2
+                    ltac:(cbn in Hf; lia) ltac:(lia) ltac:(pose proof (blen_nonneg t); lia)) as (tk & E & Ety2).
+        exists tk. split; [|exact Ety2]. rewrite E. cbn [rev map fst]. rewrite <- app_assoc. cbn [app]. f_equal. f_equal.
+        cbn [tx_text map concat print_tx fst snd]. fold (tx_text txs). rewrite En.
+        repeat (rewrite blen_app || rewrite blen_cons). rewrite ?blen_nil. apply stepS_eq; lia.
+  Qed.
+
+  (** receivers / access nodes followed by " ;" : the loop ends with the ';' in the lookahead *)
+  Lemma comma_idents_semi_run : forall rs f racc TAIL c2 r last P l K ll,
+    32 :: TAIL = comma_list rs ++ 32 :: 59 :: c2 :: r -> Forall (fun x => ident_valid x = true) rs -> ascii c2 ->
+    (length rs < f)%nat -> (length (comma_list rs) + 4 < F)%nat -> 0 <= K ->
+    exists tk, comma_idents_loop il id F f racc (PS (mkS TAIL last P l K ll 32 ws_default) None)
+               = POk (rev racc ++ rs)
+                     (PS (stepS c2 r (P + blen (comma_list rs) + 1) l (K + blen (comma_list rs) + 1) ll c2 ws_default) (Some tk))
+               /\ t_typ tk = 59.
+  Proof.
+    induction rs as [|x rs IH]; intros f racc TAIL c2 r last P l K ll HT Hw Hc2 Hf HF HK.
+    - cbn [comma_list map concat app] in HT. injection HT as ->. destruct f as [|f]; [lia|].
+      cbn [comma_idents_loop]. unfold bind at 1.
+      destruct (peek_ws_punct 32 59 c2 r last P l K ll ws_default) as (tk & Ep & Ety); try side.
+      rewrite Ep, Ety. change (59 =? c_comma) with false. cbv iota. unfold ret. cbn [comma_list map concat].
+      rewrite app_nil_r, blen_nil, !Z.add_0_r. exists tk. split; [reflexivity|exact Ety].
+    - apply Forall_cons_iff in Hw. destruct Hw as (Hx & Hw'). destruct f as [|f]; [cbn in Hf; lia|].
+      cbn [comma_list map concat app] in HT. fold (comma_list rs) in HT. injection HT as ->.
+      assert (ET' : exists T', comma_list rs ++ 32 :: 59 :: c2 :: r = 32 :: T').
+      { destruct rs as [|y rs']; cbn; eexists; reflexivity. }
+      destruct ET' as (T' & ET').
+      assert (HFx : (length x + length (comma_list rs) + 8 < F)%nat).
+      { cbn [comma_list map concat] in HF. fold (comma_list rs) in HF. repeat (rewrite app_length in HF || cbn [length] in HF). lia. }
+      pose proof (blen_nonneg x) as Hnx.
+      cbn [comma_idents_loop]. unfold bind at 1.
+      rewrite <- app_assoc. rewrite ET'.
+      destruct (peek_ws_punct 32 44 32 (x ++ 32 :: T') last P l K ll ws_default) as (tk1 & Ep & Ety); try side.
+      rewrite Ep, Ety. change (44 =? c_comma) with true. cbv beta iota. unfold bind at 1.
+      rewrite (p_token_look _ tk1 c_comma Ety). unfold bind at 1. rewrite stepS_plain by discriminate.
+      rewrite p_identifier_ws by side. rewrite stepS_plain by discriminate.
+      destruct (IH f (x :: racc) T' c2 r [32] (P + 1 + 1 + blen x + 1) l (K + 1 + 1 + blen x + 1) ll (eq_sym ET') Hw' Hc2
+                  ltac:(cbn in Hf; lia) ltac:(lia) ltac:(lia)) as (tk & E & Ety2).
+      exists tk. split; [|exact Ety2]. rewrite E. cbn [rev]. rewrite <- app_assoc. cbn [app]. f_equal. f_equal.
+      cbn [comma_list map concat]. fold (comma_list rs). repeat (rewrite blen_app || rewrite blen_cons). apply stepS_eq; lia.
+  Qed.
+
   (** ------------------------------------------------------------ the whole file *)
 
   Lemma is_ident_version : is_ident kw_version.
